@@ -1,7 +1,7 @@
 (* C11 - zero padding: trailing zeros are ignored when tolerated, rejected when not.  Statements only. *)
 From Coq Require Import ZArith List Bool String.
 From UDS Require Import Lib.Bytes Lib.ErrM Lib.PyOps Model.Message Model.Client Model.Services Model.Svc_Did Model.Svc_Dtc
-  Proofs.C02_lemmas Proofs.C02b_lemmas Proofs.C02c_lemmas.
+  Model.Svc_Memory Proofs.C02_lemmas Proofs.C02b_lemmas Proofs.C02c_lemmas Proofs.C11_lemmas.
 Import ListNotations.
 Open Scope Z_scope.
 
@@ -131,7 +131,47 @@ Theorem C11_extended_data_by_record_number : forall cfg a recnum size l n,
 Proof. exact extdata_by_record_padding. Qed.
 Print Assumptions C11_extended_data_by_record_number.
 
-(* C11_partial: with ignore_all_zero_dtc off the whole all-zero records among the padding become DTC 0 records for the fixed-size
-   record lists (the exception clause of the property; proved above only for extended data by record number as the boundary
-   n < 4 + size); that case, io_control, read_memory_by_address and request_file_transfer are covered by the padding
-   correspondence (every pad length 0..2*rs+1, four settings), not yet by a Coq theorem. *)
+(* ---- the exception clause: tolerance on, ignore_all_zero_dtc off: every whole all-zero record among the n padding bytes is a genuine
+   record (DTC 0), what is left over is padding - for the four record shapes, any record list, any n -------------------------------- *)
+Theorem C11_zero_records_kept : forall pc sub l pre acc n fuel,
+  Forall wf_rec4 l -> pc_tol pc = true -> pc_ign pc = false -> (List.length l + n < fuel)%nat ->
+  loop_records fuel pc sub false (pre ++ recs4 l ++ repeat 0 n) (List.length pre) acc = inr (acc ++ map dtc4 l ++ repeat dtc_zero (n / 4)).
+Proof. exact loop_records_zero_records_kept. Qed.
+Print Assumptions C11_zero_records_kept.
+Theorem C11_zero_severity_records_kept : forall pc sub l pre acc n fuel,
+  Forall wf_rec6 l -> pc_tol pc = true -> pc_ign pc = false -> (List.length l + n < fuel)%nat ->
+  loop_records fuel pc sub true (pre ++ flat_map rec6 l ++ repeat 0 n) (List.length pre) acc = inr (acc ++ map dtc6 l ++ repeat dtc6_zero (n / 6)).
+Proof. exact loop_records6_zero_records_kept. Qed.
+Theorem C11_zero_fault_counters_kept : forall pc l pre acc n fuel,
+  Forall wf_rec4 l -> pc_tol pc = true -> pc_ign pc = false -> (List.length l + n < fuel)%nat ->
+  loop_pairs fuel pc true (pre ++ recs4 l ++ repeat 0 n) (List.length pre) acc = inr (acc ++ map dtcf l ++ repeat dtcf_zero (n / 4)).
+Proof. exact loop_fault_counters_zero_records_kept. Qed.
+Theorem C11_zero_wwh_records_kept : forall pc l acc fuel n,
+  Forall wf_rec5 l -> pc_tol pc = true -> pc_ign pc = false -> (List.length l + n < fuel)%nat ->
+  loop_wwh fuel pc (flat_map rec5 l ++ repeat 0 n) acc = inr (acc ++ map dtc5 l ++ repeat dtc5_zero (n / 5)).
+Proof. exact loop_wwh_zero_records_kept. Qed.
+(* ... and on the whole response of the status-mask family *)
+Theorem C11_dtc_by_status_mask_zero_records_kept : forall cfg sub a av l n,
+  In sub [2; 10; 11; 12; 13; 14; 15; 19; 21] -> Forall wf_rec4 l -> tol_pad cfg = true -> ign_zero cfg = false ->
+  rdtci_decode cfg sub a ([sub; av] ++ recs4 l ++ repeat 0 n)
+  = inr {| r_echo := sub; r_memsel := -1; r_status_av := av; r_sev_av := -1; r_format := -1; r_fgid := -1;
+           r_count := Z.of_nat (List.length l + n / 4); r_dtcs := map dtc4 l ++ repeat dtc_zero (n / 4) |}.
+Proof. exact dtc_list_zero_records_kept. Qed.
+Print Assumptions C11_dtc_by_status_mask_zero_records_kept.
+
+(* ---- the other padding-aware services: read_memory_by_address and io_control (request_file_transfer: the C02_file_transfer theorems) ------ *)
+Theorem C11_read_memory : forall cfg size r out k,
+  p_data r = out ++ repeat 0 k -> Z.of_nat (List.length out) = size -> 0 < size ->
+  rmba_interpret cfg size r = if (k =? 0)%nat || tol_pad cfg then inr (enc_bytes out) else inl EUnexpected.
+Proof. exact rmba_padding. Qed.
+Theorem C11_io_control : forall cfg did cp sh v k hm mv ms,
+  0 <= did <= 65535 -> fetch_io cfg did = inr (sh, hm, mv, ms) -> check_io_entry (sh, hm, mv, ms) = inr tt ->
+  0 <= sh -> Z.of_nat (List.length v) = sh -> 0 <= cp <= 255 ->
+  io_interpret cfg did (Some cp) {| p_svc := None; p_code := None; p_name := EmptyString; p_positive := true; p_valid := true; p_reason := RNone;
+                                    p_unexpected := false; p_data := be_enc 2 did ++ [cp] ++ v ++ repeat 0 k; p_orig := None |}
+  = if (k =? 0)%nat || tol_pad cfg then inr (did :: cp :: enc_bytes v) else inl EInvalid.
+Proof. exact io_padding. Qed.
+Print Assumptions C11_io_control.
+
+(* every clause of C11 now has a theorem for every padding-aware service; the correspondence (every pad length 0..2*rs+1, four
+   settings) ties them to the code. *)
